@@ -27,6 +27,10 @@ extern BOX_T G_bx, G_by;                   /* the operands */
 extern ex_t G_pn[BOX_N]; extern int G_ps[BOX_N];   /* ghost point */
 extern ITV_T G_xs0[BOX_N]; extern uint32_t G_fx0;  /* entry copy of x */
 extern int G_satX0, G_satY0, G_emptyX0, G_emptyY0;
+#ifdef BOX_ALIAS
+/* aliased-argument variant (check C13): the second operand IS the first one */
+# define G_ys G_xs
+#endif
 #define GP(k) ns(G_pn[k], G_ps[k])
 #define ALLK(e0, e1) ((BOX_D < 1 || (e0)) && (BOX_D < 2 || (e1)))
 #define ANYK(e0, e1) ((BOX_D >= 1 && (e0)) || (BOX_D >= 2 && (e1)))
@@ -52,6 +56,10 @@ SPEC int itv_closed(const ITV_T *x) { return (lo_inf(x) || !lo_open(x)) && (hi_i
 #if defined(VERIF_CBMC)
 #define FRAME_B __CPROVER_object_whole(G_xs), __CPROVER_object_whole(G_ys), __CPROVER_object_whole(&G_bx), __CPROVER_object_whole(&G_by)
 #define PRE_BX  PRE(wf_x, x == &G_bx && box_wf(x, G_xs)) PRE(point, pt_ok())
+#ifndef BOX_ALIAS
 #define PRE_BXY PRE(wf_x, x == &G_bx && box_wf(x, G_xs)) PRE(wf_y, y == &G_by && box_wf(y, G_ys)) PRE(point, pt_ok())
+#else
+#define PRE_BXY PRE(wf_x, x == &G_bx && box_wf(x, G_xs)) PRE(aliased, y == x) PRE(point, pt_ok())
+#endif
 #endif
 #endif
